@@ -196,6 +196,14 @@ def step (s : St) (args : List String) : St × String × String :=
                          | .ok u => some u
                          | _ => none }
       (s', outTag r, outTag r)
+  | ["mark"] =>
+      match s.u with
+      | none => (s, "noqueue", "noqueue")
+      | some u =>
+          let o := "latest=" ++ toString u.latest
+          match add u (syncValue u.latest) none with
+          | .ok u' => ({ s with u := some u' }, o, o)
+          | _ => (s, "err", "err")
   | ["next"] =>
       match s.u with
       | none => (s, "noqueue", "noqueue")
